@@ -195,6 +195,31 @@ func checkC13(c C13Case) *Violation {
 		} else if theory.IsListed(rel.String()) {
 			return vio("listed-key-rejected", "relative key %s of %s is not described", rel, k)
 		}
+		// the same pair asked of crd itself: the relative `info key conv -c r` names has the notes and signature of k
+		if theory.IsListed(k) {
+			cr := crd("", "info", "key", "conv", "--key", k, "-c", "r")
+			if v := cleanOutcome(cr); v != nil {
+				return v
+			}
+			for _, rk := range strings.Fields(string(cr.Stdout)) {
+				if !theory.IsListed(rk) {
+					continue
+				}
+				if r3, o3, _ := describeKey(rk); r3.Exit == 0 && o3 != nil {
+					a, b := append([]string{}, o.Notes...), append([]string{}, o3.Notes...)
+					sort.Strings(a)
+					sort.Strings(b)
+					// two spellings of one key (F#/Gb) are two relatives: compare within the spelling that shares the signature
+					if o.Flat == o3.Flat && o.Sharp == o3.Sharp && strings.Join(a, ",") == strings.Join(b, ",") {
+						continue
+					}
+					if (o.Flat+o3.Sharp == 12 || o.Sharp+o3.Flat == 12) && o.Flat+o.Sharp > 0 {
+						continue // the enharmonic spelling of the relative
+					}
+					return vio("relative-pair-by-conv", "`info key conv --key %s -c r` names %s, which does not share notes and signature with %s: %v (b%d #%d) vs %v (b%d #%d)", k, rk, k, o.Notes, o.Flat, o.Sharp, o3.Notes, o3.Flat, o3.Sharp)
+				}
+			}
+		}
 		if v := checkKeyWritten(k, key, mustAccept, mustReject); v != nil {
 			return v
 		}
